@@ -182,7 +182,8 @@ public:
 
   int check_atom_id(int atom_number) override
   {
-    int aid = atom_number - 1;
+    // (no arithmetic on an unchecked number: atom_number may be INT_MIN)
+    int aid = (atom_number >= 1) ? (atom_number - 1) : -1;
     if (aid < 0 || aid >= eng->natoms) {
       cvm::error("Error: invalid atom number specified, " + cvm::to_str(atom_number) + "\n",
                  COLVARS_INPUT_ERROR);
@@ -193,7 +194,7 @@ public:
 
   int init_atom(int atom_number) override
   {
-    int aid = atom_number - 1;
+    int aid = (atom_number >= 1) ? (atom_number - 1) : -1;
     for (size_t i = 0; i < atoms_ids.size(); i++) {
       if (atoms_ids[i] == aid) {
         atoms_refcount[i] += 1;
